@@ -111,8 +111,9 @@ class Project(Container):
             from_modules = [from_modules]
         if isinstance(to_modules, (DisconnectingModule, Module)):
             to_modules = [to_modules]
-        for from_module in from_modules:
+        for from_item in from_modules:
             for to_module in to_modules:
+                from_module = from_item
                 disconnect = False
                 if isinstance(from_module, DisconnectingModule):
                     disconnect = True
